@@ -85,7 +85,12 @@ func nextPacket(r io.Reader) (*parser.Packet, error) {
 			if err != nil {
 				return nil, err
 			}
-			expectedLen = int(binary.BigEndian.Uint32(header[:]))
+			// The extended length is 64 bits wide (see `send`).
+			l := binary.BigEndian.Uint64(header[:])
+			if l > uint64(int(^uint(0)>>1)) { // Doesn't fit an int
+				return nil, ErrLimitReached
+			}
+			expectedLen = int(l)
 			state = ReadPayload
 		case ReadPayload:
 			// Check the declared length against the limit before anything is allocated for it.
